@@ -218,10 +218,13 @@ class Ctx:
             except z3.Z3Exception:
                 self.model = None
 
-    def _add_def(self, b):
+    def _add_def(self, b, cheap=False):
         self.defs.append(b)
-        self.solver.add(b)
-        self.model = None
+        if cheap or not getattr(self, 'light', False):
+            # `light` exploration: the branch solver works without the (nonlinear) definitions of
+            # sqrt/inverse variables - an over-approximation of feasibility; obligations always use them
+            self.solver.add(b)
+            self.model = None
 
     def assume(self, cond, text=None):
         b = as_bool_term(cond)
@@ -298,7 +301,14 @@ class Ctx:
             self.decisions.append((side, False))
             self._add(t if side else z3.Not(t))
             return side
-        # both feasible (or unknown): fork; take `True` side first for determinism
+        # both feasible (or unknown): fork - unless the fork budget of this exploration is used up,
+        # in which case only the model's side is followed and the other side is counted as unexplored
+        fb = getattr(self, 'fork_budget', None)
+        if fb is not None and sum(1 for _, f in self.decisions if f) >= fb:
+            self.unexplored = getattr(self, 'unexplored', 0) + 1
+            self.decisions.append((side, False))
+            self._add(t if side else z3.Not(t))
+            return side
         self.stats.forks += 1
         self.decisions.append((side, True))
         self._add(t if side else z3.Not(t))
@@ -392,6 +402,8 @@ class Ctx:
         r = self.fresh('sqrt')
         self._sqrt[key] = (r, a)
         self._defof[r.get_id()] = ('sqrt', a)
+        if getattr(self, 'light', False):
+            self.solver.add(r >= 0)
         self._add_def(z3.And(r >= 0, r * r == a))
         return r
 
@@ -462,7 +474,7 @@ class Ctx:
                 if key not in self._pos_cache:
                     # sign facts of the logarithm, known to the branch solver as well
                     self._pos_cache[key] = (True, la)
-                    self._add_def(z3.And(z3.Implies(ca < 1, la < 0), z3.Implies(ca == 1, la == 0), z3.Implies(ca > 1, la > 0)))
+                    self._add_def(z3.And(z3.Implies(ca < 1, la < 0), z3.Implies(ca == 1, la == 0), z3.Implies(ca > 1, la > 0)), cheap=True)
                 res = res + _rv(k) * la
         return res
 
@@ -924,7 +936,7 @@ class SymReal:
         key = ('exp', e.get_id())
         if key not in c._pos_cache:
             c._pos_cache[key] = (True, e)
-            c._add_def(e > 0)
+            c._add_def(e > 0, cheap=True)
         return SymReal(e)
 
     def conjugate(self):
@@ -953,6 +965,11 @@ class SymReal:
         if _is_num(a) and _is_num(b):
             x, y = _num(a), _num(b)
             return {'lt': x < y, 'le': x <= y, 'gt': x > y, 'ge': x >= y, 'eq': x == y, 'ne': x != y}[op]
+        if _CTX is not None and not getattr(_CTX, 'concrete', False) and (_CTX._sqrt or _CTX._inv):
+            # compare non-negative root expressions through their squares (radicands): no sqrt variables in the atom
+            qa, qb = _nonneg_square(_CTX, a), _nonneg_square(_CTX, b)
+            if qa is not None and qb is not None:
+                a, b = qa, qb
         t = {'lt': a < b, 'le': a <= b, 'gt': a > b, 'ge': a >= b, 'eq': a == b, 'ne': a != b}[op]
         return SymBool(t)
 
@@ -1097,6 +1114,48 @@ def _mul_nonfinite(x, v):
     if x < 0:
         return -v
     return float('nan')
+
+
+def _nonneg_square(c, t, depth=0):
+    """t^2 as a term without square-root variables, if t is syntactically a non-negative root expression."""
+    if depth > 6:
+        return None
+    if _is_num(t):
+        v = _num(t)
+        return _rv(v * v) if v >= 0 else None
+    if not z3.is_app(t):
+        return None
+    d = c._defof.get(t.get_id())
+    if d is not None and d[0] == 'sqrt':
+        return d[1]
+    if d is not None and d[0] == 'inv':
+        q = _nonneg_square(c, d[1], depth + 1)
+        return None if q is None else c.inv(q)
+    k = t.decl().kind()
+    if k == z3.Z3_OP_MUL:
+        out = None
+        for ch in t.children():
+            q = _nonneg_square(c, ch, depth + 1)
+            if q is None:
+                return None
+            out = q if out is None else out * q
+        return out
+    if k == z3.Z3_OP_ITE:
+        a, b = _nonneg_square(c, t.arg(1), depth + 1), _nonneg_square(c, t.arg(2), depth + 1)
+        if a is None or b is None:
+            return None
+        cond = t.arg(0)
+        # a condition comparing two such roots is rewritten as well
+        return z3.If(_rewrite_root_cmp(c, cond), a, b)
+    return None
+
+
+def _rewrite_root_cmp(c, cond):
+    if z3.is_app(cond) and cond.num_args() == 2 and cond.decl().kind() in (z3.Z3_OP_LE, z3.Z3_OP_LT, z3.Z3_OP_GE, z3.Z3_OP_GT):
+        a, b = _nonneg_square(c, cond.arg(0)), _nonneg_square(c, cond.arg(1))
+        if a is not None and b is not None:
+            return cond.decl()(a, b)
+    return cond
 
 
 class SymBool:
@@ -1310,6 +1369,7 @@ class PathResult:
         self.ndraws = len(c.draws)
         self.nice = None
         self.inputs = list(c._input_order)
+        self.unexplored = getattr(c, 'unexplored', 0)
 
 
 def explore(fn, max_paths=2000, time_budget=None, ctx_hook=None, want_nice=True):
